@@ -33,6 +33,7 @@ Record tcase := Case {
   c_token : N;
   c_p002 : bool;
   c_thash : N;
+  c_ripemd : string;                  (* the bytes of `ripemd` read from the running package (verif hook) *)
   c_prog : list item;
   c_answers : list ans;               (* every answer of the real AccountDB, in program order *)
   c_fin_false : list dacct;           (* account trie after IntermediateRoot(false) *)
@@ -42,7 +43,8 @@ Record tcase := Case {
 Definition check (c : tcase) : bool :=
   let s0 := fresh (mk_trie (c_trie c)) (mk_codes (c_codes c)) (c_token c) (c_p002 c) (c_thash c) in
   let '(s1, xs) := run (c_prog c) s0 in
-  bool_decide (xs = c_answers c)
+  bytes_eqb (unhex (c_ripemd c)) ripemd_bytes
+  && bool_decide (xs = c_answers c)
   && bool_decide (fin_trie false false s1 = mk_trie (c_fin_false c))
   && bool_decide (fin_trie false true s1 = mk_trie (c_fin_true c)).
 
